@@ -150,6 +150,10 @@ func c06Build(c c06Case) (cmd ipmi.Command, netfn, cmdno, lun byte, data []byte,
 	return nil, 0, 0, 0, nil, false
 }
 
+// c06Names: user names whose byte length and character count differ (the
+// limit of 16 is in bytes: it is what the length byte and the BMC's field hold)
+var c06Names = []string{"жжжжжжжжж", "жжжжжжжж", "ééééééééé", "aaaaaaaaaaaaaaaé", "aaaaaaaaaaaaaaé", "日本語日本語", "€€€€€", "€€€€€€", "𝔘𝔘𝔘𝔘", "𝔘𝔘𝔘𝔘𝔘", "\x00\x00", "abc\xff\xfe"}
+
 type c06Worlds struct {
 	less *World
 	in   *World
@@ -198,6 +202,13 @@ func c06Setup(c c06Case) (string, string) {
 		}
 		want = cat([]byte{byte(v[0]), 0, 0, 0}, le32b(uint32(v[1])), pattern(16, byte(v[5]), 1), []byte{role, 0, 0, byte(v[4])}, pattern(int(v[4]), 0x61, 1))
 		wantErr = v[4] > 16
+	case "RAKPMessage1Name":
+		name := c06Names[v[0]]
+		r := &ipmi.RAKPMessage1{Tag: 1, ManagedSystemSessionID: 2, PrivilegeLevelLookup: true, MaxPrivilegeLevel: 4, Username: name}
+		layer = r
+		want = cat([]byte{1, 0, 0, 0}, le32b(2), make([]byte, 16), []byte{4, 0, 0, byte(len(name))}, []byte(name))
+		wantErr = len(name) > 16
+		v = append(v, 0, 0, 0, int64(len(name)))
 	case "RAKPMessage3":
 		r := &ipmi.RAKPMessage3{Tag: uint8(v[0]), Status: ipmi.StatusCode(v[1]), ManagedSystemSessionID: uint32(v[2]), AuthCode: pattern(int(v[3]), 0xA0, 1)}
 		layer = r
@@ -209,7 +220,7 @@ func c06Setup(c c06Case) (string, string) {
 	got, err := serialise(layer)
 	if wantErr {
 		if err == nil {
-			return "C06/" + c.Cmd + "/oversized-username-not-rejected", fmt.Sprintf("a %d-byte user name was serialised as % x", v[4], got)
+			return "C06/" + c.Cmd + "/oversized-username-not-rejected", fmt.Sprintf("a %d-byte user name was serialised as % x", v[len(v)-1], got)
 		}
 		return "", ""
 	}
@@ -225,7 +236,7 @@ func c06Setup(c c06Case) (string, string) {
 // c06One sends the command outside and inside a session and has the
 // reference BMC parse what arrives.
 func c06One(ws *c06Worlds, c c06Case) (string, string) {
-	if c.Cmd == "OpenSessionReq" || c.Cmd == "RAKPMessage1" || c.Cmd == "RAKPMessage3" {
+	if c.Cmd == "OpenSessionReq" || c.Cmd == "RAKPMessage1" || c.Cmd == "RAKPMessage3" || c.Cmd == "RAKPMessage1Name" {
 		return c06Setup(c)
 	}
 	if c.Cmd == "HandshakeAfterHistory" {
@@ -245,7 +256,7 @@ func c06One(ws *c06Worlds, c c06Case) (string, string) {
 			w.T.Menu = func(t *env.Transport, req []byte) []env.Answer {
 				if first {
 					first = false
-					return []env.Answer{env.Code("node-busy", 0xC0)}
+					return []env.Answer{busyOtherRMCPSeq()}
 				}
 				return []env.Answer{env.Honest()}
 			}
@@ -311,7 +322,7 @@ func runC06(r *rep.R) {
 			r.Violate(k, msg, "c06", c, nil)
 			return
 		}
-		if cmd == "SetSessionPrivilegeLevel" && v[0] == 1 || cmd == "RAKPMessage1" && v[4] > 16 {
+		if cmd == "SetSessionPrivilegeLevel" && v[0] == 1 || cmd == "RAKPMessage1" && v[4] > 16 || cmd == "RAKPMessage1Name" && len(c06Names[v[0]]) > 16 {
 			r.Outcome("invalid-request-refused")
 			return
 		}
@@ -426,6 +437,9 @@ func runC06(r *rep.R) {
 			}
 		}
 	}
+	for i := range c06Names {
+		do("RAKPMessage1Name", int64(i))
+	}
 	for _, n := range []int64{0, 12, 16, 20, 32} {
 		do("RAKPMessage3", 0, 0, 1, n)
 		do("RAKPMessage3", 0, 0x0F, 1, n)
@@ -470,4 +484,22 @@ func c06Handshake(c c06Case) (string, string) {
 		}
 	}
 	return "", ""
+}
+
+// busyOtherRMCPSeq: a node-busy reply whose RMCP header carries the BMC's own
+// sequence number (0x2A) instead of 0xFF; what the console sends next must
+// still start with its own RMCP header.
+func busyOtherRMCPSeq() env.Answer {
+	return env.Raw("node-busy-other-rmcp-seq", func(t *env.Transport, rx *ref.Rx) []byte {
+		if rx == nil || rx.Msg == nil {
+			return nil
+		}
+		var body []byte
+		if rx.Msg.NetFn == 0x2c && len(rx.Msg.Data) > 0 {
+			body = []byte{rx.Msg.Data[0]}
+		}
+		d := t.BMC.Respond(rx, 0xC0, body)
+		d[2] = 0x2A
+		return d
+	})
 }
